@@ -101,6 +101,9 @@ CHECKS = {
  "C24": ("cyphermon", "exploration", "differential monitor through the C API: generated dependency scripts in one explicit transaction vs the same statements as consecutive auto-commit statements, uid-keyed content comparison",
          "On the current tree this property is violated for 8 of the 9 generated dependency kinds (recorded known finding); the check keeps watching the kind that holds and reports any difference outside the recorded cause.",
          "The sequential auto-commit run is the reference.", "DESIGN.md §4.4 C24"),
+ "C16": ("robust", "exploration", "hostile-input monitor in child processes (exit status / signal, caught panics, per-input run time against a huge bound) over six input families incl. depth bombs and run-time harvested seed queries",
+         "Held on the generated inputs apart from the listed known finding: no child died by signal (stack overflow, allocation failure), no panic was caught and no call ran past max(20 x timeout, timeout + 20 s), on the main thread with an 8 MiB stack and RLIMIT_AS 16 GiB, against an uncompacted and a compacted graph.",
+         "Errors are fine; inputs bounded to 4 MiB of text; dev-profile and sanitizer passes are thorough-tier extras.", "DESIGN.md §4.5 C16"),
 }
 
 checks = []
